@@ -10,14 +10,16 @@ def classify(p, b, claims):
             return ('c07:live:for-header-kills-target',
                     '%s is read at node %d, but not reported live at the entry of the for loop (node %d) whose target it is: '
                     'the header kills its target also on the zero-trip / exit edge' % (nm, n, on))
-        if on and kind in ('return', 'break', 'continue') and slot == 'out':
+        if on:
             par = mpsig.parents(p)
-            for k, sec, q in mpsig.path(p, on, par):
+            # the statement that failed to report lies in an except handler, the read in the finally block of the same try:
+            # the only way from one to the other is a jump out of the handler, which the CFG does not route through finally
+            for k, sec, q in mpsig.path(p, on, par) + ([('try', 'handler', on)] if False else []):
                 if k == 'try' and sec == 'handler' and p['nodes'][q - 1]['final'] and mpsig.in_section(p, n, q, 'finally', par):
                     return ('c07:live:jump-in-handler-not-routed-through-finally',
-                            '%s is read in the finally block (node %d) that runs after the %s at node %d inside an except '
-                            'handler of the same try, but is not live-out of that %s: the CFG has no edge from a jump in a '
-                            'handler to the finally block (see C05)' % (nm, n, kind, on, kind))
+                            '%s is read in the finally block (node %d) that runs after a jump out of the except handler of the same '
+                            'try (statement %d, %s, failed to report it live): the CFG has no edge from a jump in a '
+                            'handler to the finally block (see C05)' % (nm, n, on, kind))
         return ('c07:live:%s:%s%s' % (kind, slot, '' if mine else ':closure-read'),
                 '%s is read at node %d before being overwritten, but was not reported live (%s) at node %d' % (nm, n, slot, on))
     return ('c07:%s' % b[0], 'the reported in/out sets do not solve the liveness equations (function %s)' % b[1:])
